@@ -482,7 +482,9 @@ Fixpoint merge (ts : list ltok) : list ltok :=
     else if is_abs (t_kind t) then
       match rest with
       | (i, di) :: (s, ds) :: rest' =>
-        if is_ident (t_kind i) && no_trivia i && is_base_specifier (t_text i)
+        (* the length of a bit string literal is an integer: digits and underscores only (repair of
+           finding F41, commit f2c0e80; `merge_old` below is the code before it) *)
+        if forallb is_intc (t_text t) && is_ident (t_kind i) && no_trivia i && is_base_specifier (t_text i)
            && is_str (t_kind s) && no_trivia s then
           (mkTok KBitStringLiteral (t_text t ++ t_text i ++ t_text s) (t_trivia t),
            or_err (or_err d di) ds) :: merge rest'
@@ -490,6 +492,33 @@ Fixpoint merge (ts : list ltok) : list ltok :=
       | _ => (t, d) :: merge rest
       end
     else (t, d) :: merge rest
+  end.
+
+(* merge_bit_string_literals before commit f2c0e80 (finding F41): ANY abstract literal (real, based, with
+   exponent) was merged with a following base specifier and string, e.g. `1.5x"0"` *)
+Fixpoint merge_old (ts : list ltok) : list ltok :=
+  match ts with
+  | [] => []
+  | (t, d) :: rest =>
+    if is_ident (t_kind t) && is_base_specifier (t_text t) then
+      match rest with
+      | (s, ds) :: rest' =>
+        if is_str (t_kind s) && no_trivia s then
+          (mkTok KBitStringLiteral (t_text t ++ t_text s) (t_trivia t), or_err d ds) :: merge_old rest'
+        else (t, d) :: merge_old rest
+      | [] => (t, d) :: merge_old rest
+      end
+    else if is_abs (t_kind t) then
+      match rest with
+      | (i, di) :: (s, ds) :: rest' =>
+        if is_ident (t_kind i) && no_trivia i && is_base_specifier (t_text i)
+           && is_str (t_kind s) && no_trivia s then
+          (mkTok KBitStringLiteral (t_text t ++ t_text i ++ t_text s) (t_trivia t),
+           or_err (or_err d di) ds) :: merge_old rest'
+        else (t, d) :: merge_old rest
+      | _ => (t, d) :: merge_old rest
+      end
+    else (t, d) :: merge_old rest
   end.
 
 (* `TokenStream::from(bytes)`: tokenize, collect, merge *)
